@@ -56,3 +56,10 @@ package thrift
 // many bytes and leaves nothing unread.  Lengths above MaxInt32 do not fit the
 // wire format: precondition.
 //@ roundtrip String [C16]: encode (*TCompactProtocol).WriteString decode (*TCompactProtocol).ReadString unroll 5 maxlen 2147483647
+
+// Doubles: eight bytes, little endian, of the IEEE bit pattern.  The harness
+// carries a float64 as its bit pattern (math.Float64bits / Float64frombits are
+// the identity on it; encoding/binary's PutUint64 / Uint64 are ASSUMED to be the
+// little-endian byte split and join), so the result is compared bit for bit:
+// NaN payloads and the sign of zero included.
+//@ roundtrip Double [C16]: encode (*TCompactProtocol).WriteDouble decode (*TCompactProtocol).ReadDouble unroll 1
